@@ -6,7 +6,7 @@ SPEC = {
     "allowed_axioms": [],
     "harness_pkg": "hx_txn",
     "harness_bin": "c13",
-    "n": {"quick": 700, "thorough": 12000},
+    "n": {"quick": 1500, "thorough": 20000},
     "harness_timeout": {"quick": 900, "thorough": 3000},
     "trusted_base": [
         "Coq 8.16.1 kernel + vm_compute (no native_compute); coqchk re-check in the thorough tier",
